@@ -661,7 +661,7 @@ def hostile_identifiers(lexer_cls, reserved=()):
                 out.append(a + b + c)
     seen, res = set(), []
     for x in out:
-        if x.strip() != x or x == '' or x in seen:
+        if x == '' or x in seen:
             continue
         seen.add(x)
         res.append(x)
